@@ -115,3 +115,192 @@ def split_cases(x, limit=6):
         if not changed:
             break
     return out
+
+
+# --- streams and loops ---------------------------------------------------------------------------
+def stream_chain(at):
+    """Decompose reduce(adaptor(...(iter(src)))) into ([(name, extra args)], source), outermost first.
+    Works on atoms/Syms produced for uninterpreted iterator adaptors (call:<path>(receiver, args...))."""
+    chain = []
+    cur = at
+    if isinstance(cur, I.Ref):
+        cur = I.read_lv(cur.lv)
+    if isinstance(cur, nf.Atom) and cur.kind == 'app' and cur.name == 'unwrap':
+        cur = cur.args[0]
+    while True:
+        if isinstance(cur, I.Sym):
+            cur = cur.atom
+        if isinstance(cur, I.Ref):
+            cur = I.read_lv(cur.lv)
+            continue
+        if not isinstance(cur, nf.Atom) or cur.kind != 'app' or not (cur.name.startswith('call:') or cur.name.startswith('mut:')):
+            break
+        if cur.name.startswith('mut:'):
+            # mut:<callee>(argpos, args...): the receiver after an opaque call mutated it
+            nm = cur.name[len('mut:'):].rsplit('::', 1)[-1]
+            chain.append(('mut:' + nm, ()))
+            rest = [a for a in cur.args[1:] if not isinstance(a, (int, str))]
+            if not rest:
+                break
+            cur = rest[0]
+            continue
+        nm = cur.name[len('call:'):].rsplit('::', 1)[-1]
+        chain.append((nm, cur.args[1:] if len(cur.args) > 1 else ()))
+        if not cur.args:
+            break
+        cur = cur.args[0]
+    return chain, cur
+
+
+def loop_record_of(ip, ev):
+    """The loop record whose phi symbol is the receiver of the `next` call event `ev` -> (record, local index)."""
+    k = I.vkey(ev.fargs[0])
+    for L in ip.loops:
+        if L['body'] is not ev.body:
+            continue
+        for i, p in enumerate(L['phi']):
+            if p is None:
+                continue
+            try:
+                if I.vkey(I.frozen(p)) == k and L['init'][i] is not None and I.vkey(I.frozen(L['init'][i])) != k:
+                    return L, i
+            except TypeError:
+                continue
+    raise AnalysisIncomplete('loop driving %s at line %s not identified' % (ev.callee, ev.line))
+
+
+def loop_stream(ip, ev):
+    """Adaptor chain and source of the stream a `for` loop iterates (ev = its Iterator::next event)."""
+    L, i = loop_record_of(ip, ev)
+    return stream_chain(I.frozen(L['init'][i]))
+
+
+def next_events(ip, body):
+    return [e for e in ip.events if e.body is body and e.callee and e.callee.endswith('::next') and 'Iterator' in e.callee]
+
+
+def bodies_assigning_field(F, field, exclude_kinds=('Closure',)):
+    """Bodies with an assignment statement whose destination projects field `field` (not aggregates)."""
+    out = []
+    for b in F.bodies:
+        if 'convex_cell_alternative' in b['path'] or b['path'].endswith('::clone'):
+            continue
+        hit = False
+        for bl in b['blocks']:
+            if bl['cleanup']:
+                continue
+            for s in bl['stmts']:
+                if s['k'] == 'assign' and any(e['k'] == 'field' and e.get('n') == field for e in s['place']['p']):
+                    hit = True
+        if hit:
+            out.append(b)
+    return out
+
+
+# --- slot-aligned stream items ---------------------------------------------------------------------
+ELEMENTWISE = ('iter', 'iter_mut', 'into_iter', 'par_iter', 'par_iter_mut', 'into_par_iter', 'deref', 'deref_mut', 'as_ref', 'as_slice', 'as_mut_slice')
+
+
+def stream_shape(v):
+    """Shape of one item of an (uninterpreted) iterator value, as a tree:
+       ('elem', <container repr>)      k-th element of a container, in order
+       ('pos',)                        the position k itself (enumerate / ranges from 0)
+       ('pair', A, B)                  tuple of two aligned items (zip, enumerate)
+       ('unknown', why)
+    All leaves of one shape refer to the same position k (order-preserving, unfiltered adaptors only)."""
+    if isinstance(v, I.Ref):
+        v = I.read_lv(v.lv)
+    if isinstance(v, I.Sym):
+        v = v.atom
+    if isinstance(v, I.St) and v.adt.endswith('Range') and set(v.fields) >= {'start', 'end'}:
+        st, en = v.fields['start'], v.fields['end']
+        if isinstance(st, RF) and st.is_zero():
+            at = I.single_atom(en) if isinstance(en, RF) else None
+            if at is not None and at.kind == 'app' and at.name == 'len':
+                return ('pos', 'len:' + repr(at.args[0]))
+        return ('unknown', 'range %r' % (v,))
+    if not isinstance(v, nf.Atom):
+        return ('unknown', repr(v)[:60])
+    if v.kind == 'app' and v.name.startswith('call:'):
+        nm = v.name.rsplit('::', 1)[-1]
+        recv = v.args[0] if v.args else None
+        if nm in ELEMENTWISE:
+            inner = stream_shape(recv)
+            if inner[0] != 'unknown' or _is_stream(recv):
+                return inner
+            return ('elem', repr(recv))
+        if nm == 'enumerate':
+            return ('pair', ('pos', 'enumerate'), stream_shape(recv))
+        if nm == 'zip':
+            return ('pair', stream_shape(recv), stream_shape(v.args[1]))
+        return ('unknown', 'adaptor %s' % nm)
+    # a plain container (symbolic field path, phi symbol, ...)
+    return ('elem', repr(v))
+
+
+def _is_stream(v):
+    if isinstance(v, I.Sym):
+        v = v.atom
+    return isinstance(v, nf.Atom) and v.kind == 'app' and v.name.startswith('call:') and v.name.rsplit('::', 1)[-1] in (
+        'enumerate', 'zip', 'map', 'filter', 'filter_map', 'flatten', 'rev', 'skip', 'take', 'step_by', 'chain') or \
+        (isinstance(v, I.St) and v.adt.endswith('Range'))
+
+
+def _atom_of(value):
+    if isinstance(value, I.Ref):
+        value = I.read_lv(value.lv)
+    if isinstance(value, RF):
+        return I.single_atom(value)
+    if isinstance(value, I.Sym):
+        return value.atom
+    if isinstance(value, nf.Atom):
+        return value
+    return None
+
+
+def resolve_item(value, next_result, shape):
+    """Resolve `value`, an expression inside a loop over a stream with item shape `shape`, to
+    (leaf shape, remaining field names): ('elem', C) = the k-th element of container C, ('pos', ..) = k itself.
+    Understands projections of the stream item and C[k] indexing with k the stream position.  None if unrelated."""
+    at = _atom_of(value)
+    root = _atom_of(I.frozen(next_result))
+    if at is None or root is None:
+        return None
+    fields = []
+    cur = at
+    while True:
+        if isinstance(cur, I.Sym):
+            cur = cur.atom
+        if not isinstance(cur, nf.Atom):
+            return None
+        if cur.id == root.id:
+            break
+        if cur.kind == 'app' and cur.name == 'field':
+            f = cur.args[1].strip("'") if isinstance(cur.args[1], str) else str(cur.args[1])
+            fields.append(f)
+            cur = cur.args[0]
+            continue
+        if cur.kind == 'app' and cur.name == 'elem':
+            r = resolve_item(cur.args[1], next_result, shape)
+            if r is not None and r[0][0] == 'pos' and not r[1]:
+                fields.reverse()
+                out = []
+                for f in fields:
+                    out.extend(f.split('.'))
+                return ('elem', repr(cur.args[0])), out
+            return None
+        return None
+    fields.reverse()
+    p = []
+    for f in fields:
+        p.extend(f.split('.'))
+    if p[:2] != ['Some', '0']:
+        return None
+    p = p[2:]
+    cur = shape
+    while p and cur[0] == 'pair':
+        if p[0] not in ('0', '1'):
+            return None
+        cur = cur[1 + int(p[0])]
+        p = p[1:]
+    return cur, p
